@@ -3,7 +3,7 @@
    is in the comment above it; what is NOT proved is said there too. *)
 From VP Require Import Base.Tactics Zdd.Model Zdd.ProofsBase Zdd.ProofsPwo Zdd.ProofsArena
   Sase.Model Sase.ProofsBounds Sase.ProofsSound Sase.ProofsSoundEngine Sase.ProofsCompile Sase.ProofsPattern Sase.ProofsKleene Sase.ProofsKeyed
-  Sase.Ref Sase.ProofsExactRef Sase.ProofsExactLoop Sase.ProofsExactRun Sase.ProofsExact Sase.ProofsExactText Sase.ProofsNoPanic.
+  Sase.Ref Sase.ProofsExactRef Sase.ProofsExactLoop Sase.ProofsExactRun Sase.ProofsExact Sase.ProofsExactText Sase.ProofsNoPanic Sase.ProofsExactKeys.
 From Coq Require Import Permutation.
 
 (* ------------------------------------------------------------------ C01 *)
@@ -208,3 +208,22 @@ Theorem C04_runs_single_key :
   forall g f en x en' ms, g_part g = Some f -> parts_keyed f (e_parts en) -> process g en x = Some (en', ms) ->
     parts_keyed f (e_parts en') /\ Forall (match_keyed f (ekey f x)) ms.
 Proof. exact process_keyed. Qed.
+
+(* The decomposition itself, for sequence patterns (two or more steps, no `all`) with partition_by
+   and no .not clause, on streams no longer than the run limit: what the engine emits on the
+   stream is, up to order, the union over the partition values k (any duplicate-free list covering
+   the stream's values, "missing" included) of what it emits on k's sub-stream alone.  A corollary
+   of C02's exactness.  (.not clauses are global by C01/C02 and therefore outside this statement;
+   patterns with `all` are covered by the per-key replay oracle of the check only.) *)
+Theorem C04_sequence_patterns_decompose :
+  forall s0 rest0 part max_runs st lim evs keys,
+    Forall (fun s => st_all s = false) (s0 :: rest0) -> rest0 <> [] -> length evs <= max_runs ->
+    NoDup keys -> (forall e, In e evs -> In (key_of part e) keys) ->
+    let g := mkCfg (compile (s0 :: rest0)) [] part max_runs st lim in
+    exists l ls, engine_stacks g engine0 evs = Some l /\
+      Forall2 (fun k lk => engine_stacks g engine0 (filter (fun e => pkey_eqb (key_of part e) k) evs) = Some lk) keys ls /\
+      Permutation l (concat ls).
+Proof.
+  intros s0 rest0 part mx st lim evs keys NoAll Two L Nd Cov.
+  exact (engine_by_keys s0 rest0 NoAll Two part mx st lim evs keys L Nd Cov).
+Qed.
